@@ -99,6 +99,13 @@ func runC08(res *hx.Result, rng *hx.Rng, tier string, outdir string) {
 			pre = append(pre, dirCase{k8Refl, t})
 		}
 	}
+	// types that differ but look alike to a cache keyed by part of a type, one after the other
+	for _, t := range wg.CollidingTys() {
+		pre = append(pre, dirCase{k8SigRead, t}, dirCase{k8Refl, t})
+	}
+	for _, t := range wg.CollidingTys() {
+		pre = append(pre, dirCase{k8Value, t})
+	}
 	for i := -len(pre); i < n; i++ {
 		kind := (i + 8*len(pre)) % 8
 		var t *wg.Ty
@@ -112,6 +119,13 @@ func runC08(res *hx.Result, rng *hx.Rng, tier string, outdir string) {
 		switch kind {
 		case -1:
 			kind = pre[i+len(pre)].kind
+			if kind == k8Value {
+				// the typed data carried opaquely by a dynamic value: signature string, then the data
+				sg := t.Sig()
+				dyn := []byte{byte(len(sg)), byte(len(sg) >> 8), 0, 0}
+				enc = append(append(dyn, sg...), enc...)
+				t = wg.Scalar("m")
+			}
 		case k8Msg:
 			h := genHeader(rng)
 			p := rng.Bytes(rng.Intn(60))
